@@ -47,7 +47,15 @@ def counter_bait(rw, target=False):
     (timestamp0, timestamp1, ... mload0 ...), and the same commutative operation computed twice with swapped operands."""
     items = []
     h = 3
-    kind = rw.choice(["count", "count", "comm", "mix"])
+    kind = rw.choice(["count", "count", "comm", "mix", "eval", "eval"])
+    if kind == "eval":
+        # the same few constant expressions in histories and targets: tables keyed by an expression (what was already
+        # evaluated / discounted) then see the same key twice in one process
+        for _ in range(rw.choice([1, 2])):
+            a, b, op = rw.choice([(1, 1, "SUB"), (2, 3, "ADD"), (0xff, 0x100, "AND"), (4, 2, "MUL"), (7, 0, "DIV"), (1, 0xff, "SHL"), (5, 5, "EQ")])
+            items += [("PUSH", "%x" % b), ("PUSH", "%x" % a), (op, None)]
+            items += rw.choice([[("DUP2", None), ("ADD", None)], [("SWAP1", None), ("POP", None)], [("DUP1", None), ("MSTORE", None)], []])
+        return items
     if kind in ("count", "mix"):
         op = rw.choice(COUNTED)
         for _ in range(rw.choice([2, 3]) if target else rw.choice([4, 8, 11, 14])):
